@@ -78,6 +78,12 @@ CLAIMED["C02"] = dict(
    technique="differential symbolic execution (implementation vs reference) + SMT (BV + FP)",
    ref="DESIGN.md §5 C02")
 
+CLAIMED["C07"] = dict(
+   text="Bounded checking of the budget mechanisms with the engine's deterministic work meter (interpreter steps + bytes copied): 17 adversarial programs (endless loops, recursion, self-referential computed value, huge dice counts, doubling containers and strings, exploding pools) under budgets {200, 30000} and dice modes {random, min, max} must end within the step limit, and when they end without error the counter is within the budget and the measured work is at most 6000 x budget + 3M; 14 straight-line programs: the counter covers every instruction and every generator output; capacity boundaries (8192 instructions, 512 elements for literals / ranges / concatenation / repetition, 1000 stack slots, parse budget) as concrete programs: complete value or error, never a truncated result.",
+   note="Programs are enumerated (concrete); what is decided per program is an engine-measured bound, not a solver verdict over symbolic programs - the weakest of the checks in solver terms. Dice are fixed low faces (roll-log stub). Hang = 120M interpreter steps without result, confirmed natively with a 20 s timeout. Known finding: exploding dice never terminate in max-mode.",
+   technique="symbolic-execution engine used as a deterministic work meter; bounded exploration of enumerated adversarial programs",
+   ref="DESIGN.md §5 C07")
+
 NA = {
 }
 
